@@ -18,6 +18,7 @@ import (
 // real (instrumented) godi, judged by the ledger + reference model.
 type containerEngine struct {
 	override *FaultOverride // fault-position sweep: plan used by runTapes
+	more     []FaultOverride
 }
 
 func (e *containerEngine) Name() string { return "container-sim" }
@@ -257,9 +258,31 @@ func (e *containerEngine) sweep(prop, tier string, idx int, tapes [nStreams][]in
 	if len(positions) > 24 {
 		positions = positions[:24]
 	}
-	for i, p := range positions {
+	var plans [][]pos
+	if prop == "C12" && len(positions) >= 2 && len(positions) <= 4 {
+		// every non-empty subset of the disposable instances fails its Close
+		for mask := 1; mask < 1<<len(positions); mask++ {
+			var pl []pos
+			for b := range positions {
+				if mask&(1<<b) != 0 {
+					pl = append(pl, positions[b])
+				}
+			}
+			plans = append(plans, pl)
+		}
+		out.Reach["sweep.close-subsets-enumerated"]++
+	} else {
+		for _, p := range positions {
+			plans = append(plans, []pos{p})
+		}
+	}
+	for i, pl := range plans {
+		p := pl[0]
 		tape := ReplayTape(tapes)
 		tape.Override = &FaultOverride{Kind: p.kind, Reg: p.reg, N: p.n, PanicKind: i % 5}
+		for _, q := range pl[1:] {
+			tape.More = append(tape.More, FaultOverride{Kind: q.kind, Reg: q.reg, N: q.n})
+		}
 		c := decodeCase(prop, tier, idx, tape)
 		sub := e.exec(c, tape)
 		out.Reach["sweep.positions"]++
@@ -274,7 +297,7 @@ func (e *containerEngine) sweep(prop, tier string, idx int, tapes [nStreams][]in
 					out.Violations = append(out.Violations, v)
 				}
 			}
-			out.override = tape.Override
+			out.override, out.more = tape.Override, tape.More
 			return
 		}
 	}
@@ -467,16 +490,16 @@ func mapToTapes(m map[string][]int32) [nStreams][]int32 {
 
 func (e *containerEngine) runTapes(prop, tier string, idx int, tapes [nStreams][]int32) (*RunOut, *Case) {
 	tape := ReplayTape(tapes)
-	tape.Override = e.override
+	tape.Override, tape.More = e.override, e.more
 	c := decodeCase(prop, tier, idx, tape)
 	out := e.exec(c, tape)
 	return out, c
 }
 
 func (e *containerEngine) Replay(rf *ReplayFile) *RunOut {
-	e.override = nil
+	e.override, e.more = nil, nil
 	if rf.Override != nil {
-		e.override = rf.Override
+		e.override, e.more = rf.Override, rf.More
 	}
 	out, _ := e.runTapes(rf.Property, rf.Tier, rf.Run, mapToTapes(rf.Tapes))
 	return out
@@ -494,7 +517,7 @@ func hasViolation(out *RunOut, v Violation) *Violation {
 
 func (e *containerEngine) Minimise(prop, tier string, idx int, tapes [nStreams][]int32, v Violation) *ReplayFile {
 	rf := e.minimise(prop, tier, idx, tapes, v)
-	rf.Override = e.override
+	rf.Override, rf.More = e.override, e.more
 	return rf
 }
 
@@ -514,7 +537,7 @@ func (e *containerEngine) minimise(prop, tier string, idx int, tapes [nStreams][
 		// the race detector reports a given race once per process: every
 		// attempt runs in a fresh process
 		try = func(t [nStreams][]int32) bool {
-			return subprocessTry(&ReplayFile{Property: prop, Rule: v.Rule, Shape: v.Shape, Tier: tier, Run: idx, Tapes: tapesToMap(t), Override: e.override})
+			return subprocessTry(&ReplayFile{Property: prop, Rule: v.Rule, Shape: v.Shape, Tier: tier, Run: idx, Tapes: tapesToMap(t), Override: e.override, More: e.more})
 		}
 		cur := tapes
 		minimised := false
